@@ -1276,6 +1276,10 @@ class SyncObj(object):
                             self.__transport.send(node, message)
                             if node not in self.__connectedNodes:
                                 break
+                        if node not in self.__connectedNodes:
+                            # the break above left the chunk loop only; a lost read-only
+                            # node has no next index any more
+                            break
                     else:
                         message = {
                             'type': 'append_entries',
